@@ -185,6 +185,69 @@ func cacheRegionsRateScenario() string {
 	return fmt.Sprintf("c17 rate cacheregions %s", strings.Join(atts, ";"))
 }
 
+// establisherRateScenario: a region that stays offline (its probes keep being refused) while the
+// connection its last requests went over breaks: a request on that connection was answered
+// NotServingRegion (the re-establishment starts), another one, still in flight, then fails with a
+// connection error. However many of its requests fail, and in whatever order, the region has one
+// re-establishment going, and its probes are spaced by the schedule.
+func establisherRateScenario() string {
+	gohbase.VerifSetSleepOverride(nil)
+	c := newSimCluster()
+	r := c.addRegion(nil, []byte("t"), nil, nil, "rs1:1")
+	c.keyRelease = make(chan struct{})
+	sc := newSimClient(c)
+	defer sc.cl.Close()
+	get := func(ctx context.Context, k string) error {
+		g, _ := hrpc.NewGet(ctx, []byte("t"), []byte(k))
+		_, err := sc.cl.Get(g)
+		return err
+	}
+	ctx, cancel := context.WithTimeout(context.Background(), 3*time.Second)
+	defer cancel()
+	werr := get(ctx, "warm")
+	c.mu.Lock()
+	r.keyFaults = map[string][]string{"held": {"HOLD:connErr"}}
+	r.faults = append(r.faults, "REQ:nsre")
+	r.probeAlways = "nsre"
+	m0 := len(c.serves)
+	c.mu.Unlock()
+	t0 := time.Now()
+	var wg sync.WaitGroup
+	wg.Add(2)
+	go func() { defer wg.Done(); get(ctx, "held") }()
+	for i := 0; i < 200; i++ { // until the held request has reached the server
+		c.mu.Lock()
+		n := len(c.serves) - m0
+		c.mu.Unlock()
+		if n >= 1 {
+			break
+		}
+		time.Sleep(time.Millisecond)
+	}
+	go func() { defer wg.Done(); get(ctx, "k") }() // told NotServingRegion: the establisher starts
+	time.Sleep(60 * time.Millisecond)
+	close(c.keyRelease) // the held request fails with a connection error now
+	time.Sleep(1300 * time.Millisecond)
+	c.mu.Lock()
+	var ts []time.Time
+	for _, s := range c.serves[m0:] {
+		if s.kind == "probe" {
+			ts = append(ts, s.at)
+		}
+	}
+	r.probeAlways = ""
+	c.mu.Unlock()
+	wg.Wait()
+	var atts []string
+	for _, t := range ts {
+		atts = append(atts, fmt.Sprintf("x.establisher.%d", t.Sub(t0).Microseconds()))
+	}
+	if len(atts) == 0 || werr != nil {
+		atts = []string{"-"}
+	}
+	return fmt.Sprintf("c17 rate establisher %s", strings.Join(atts, ";"))
+}
+
 func init() { props["C17"] = runC17 }
 
 // runC17: the real sleepAndIncreaseBackoff, value by value along the schedule (all waits run
@@ -299,4 +362,5 @@ func runC17(tier string, seed uint64, out *Out) {
 	out.Line("%s", lookupRateScenario("zk-silent"))
 	out.Line("%s", lookupRateScenario("server-refuses"))
 	out.Line("%s", cacheRegionsRateScenario())
+	out.Line("%s", establisherRateScenario())
 }
